@@ -14,7 +14,7 @@ RULE = ("Programs from G with source variants (omitted '::', positional kind/len
         "labels, construct names exact; statement count and order exact. Non-trivial = literal with embedded "
         "quote/!/&/; or >=2 units or a source variant used or a continued literal.")
 MIN_NONTRIVIAL = 0.3
-FOREIGN_EXCLUSIONS = ("no_defined_binop_before_dotted", "no_construct_name_split")
+FOREIGN_EXCLUSIONS = ("no_defined_binop_before_dotted",)
 ASSUMPTIONS = ["the lexer is lossless (checked on every line: joined tokens == text without blanks)",
                "expected canonical content comes from the generator's templates, not from fparser"]
 
